@@ -31,25 +31,39 @@ func (o VerifOBU) WithSize() []byte {
 	return append(b, o.Payload...)
 }
 
+// VerifSrc hands the generator the calling package's nondet primitives (each
+// package has its own tape-reading runtime in native replays).
+type VerifSrc interface {
+	Case(name string, lo, hi int) int
+	U8(name string) uint8
+	Bytes(name string, n int) []byte
+}
+
+type verifLocalSrc struct{}
+
+func (verifLocalSrc) Case(name string, lo, hi int) int { return verifCase(name, lo, hi) }
+func (verifLocalSrc) U8(name string) uint8             { return verifU8(name) }
+func (verifLocalSrc) Bytes(name string, n int) []byte  { return verifBytes(name, n) }
+
 // VerifHelperAV1Stream builds a low-overhead bitstream of 1..max OBUs (layout
 // case-split, values symbolic) and returns it with the OBUs that must arrive.
-func VerifHelperAV1Stream(max int, maxPayload int) (stream []byte, kept []VerifOBU) {
-	n := verifCase("obus", 1, max)
+func VerifHelperAV1Stream(src VerifSrc, max int, maxPayload int) (stream []byte, kept []VerifOBU) {
+	n := src.Case("obus", 1, max)
 	for i := 0; i < n; i++ {
-		o := VerifOBU{HasExt: verifCase("ext", 0, 1) == 1, HasSize: true}
+		o := VerifOBU{HasExt: src.Case("ext", 0, 1) == 1, HasSize: true}
 		if i == n-1 {
-			o.HasSize = verifCase("lastHasSize", 0, 1) == 1
+			o.HasSize = src.Case("lastHasSize", 0, 1) == 1
 		}
-		t := verifU8("type") & 0x0F
-		o.Hdr = t<<3 | verifU8("reserved")&1
+		t := src.U8("type") & 0x0F
+		o.Hdr = t<<3 | src.U8("reserved")&1
 		if o.HasExt {
 			o.Hdr |= 0x04
-			o.Ext = verifU8("extbyte")
+			o.Ext = src.U8("extbyte")
 		}
 		if o.HasSize {
 			o.Hdr |= 0x02
 		}
-		o.Payload = verifBytes("obu.payload", verifCase("psize", 0, maxPayload))
+		o.Payload = src.Bytes("obu.payload", src.Case("psize", 0, maxPayload))
 		stream = append(stream, o.Hdr)
 		if o.HasExt {
 			stream = append(stream, o.Ext)
@@ -67,7 +81,7 @@ func VerifHelperAV1Stream(max int, maxPayload int) (stream []byte, kept []VerifO
 }
 
 func VerifC13Packetize() {
-	stream, kept := VerifHelperAV1Stream(verifBound("C13.obus"), verifBound("C13.payload"))
+	stream, kept := VerifHelperAV1Stream(verifLocalSrc{}, verifBound("C13.obus"), verifBound("C13.payload"))
 	mtu := verifU16("mtu")
 	verifAssume(mtu >= 2)
 	verifAssume(int(mtu) <= len(stream)+3) // every fragmentation pattern of the shape; larger MTUs behave like len+3
